@@ -5,7 +5,7 @@
 # transformed tree (dry: no evidence written), the worktree removed.  Prints the checks that do not exit 0.
 # Not registered in MANIFEST.json: this tests the checks, it decides no property.
 D=$(dirname "$0"); W=/tmp/eql_robust
-TS="$*"; [ -n "$TS" ] || TS="tf_reformat tf_rename swap_ifelse tf_continue tf_else tf_noelse tf_alias tf_streamlocal tf_nestif tf_evalpos tf_yieldfrom tf_ternary tf_dictmerge tf_isinstance_or tf_compr composed"
+TS="$*"; [ -n "$TS" ] || TS="tf_reformat tf_rename swap_ifelse tf_continue tf_else tf_noelse tf_alias tf_streamlocal tf_nestif tf_evalpos tf_yieldfrom tf_ternary tf_dictmerge tf_isinstance_or tf_compr tf_pass composed"
 for t in $TS; do
   git -C /repo worktree remove --force $W 2>/dev/null; rm -rf $W
   git -C /repo worktree add -q --detach $W HEAD || exit 2
